@@ -1581,12 +1581,40 @@ def _flatten_nested(x):
     return [x]
 
 
+class _VFShim:
+    """torch.nn.utils.rnn calls _VF._pad_packed_sequence / _pack_padded_sequence, whose C++ composite kernels read
+    batch_sizes/lengths through data_ptr (no dispatch): route them to the engine's models instead"""
+
+    def __init__(self, real):
+        self._real = real
+
+    def __getattr__(self, k):
+        return getattr(self._real, k)
+
+    def _pad_packed_sequence(self, data, batch_sizes, batch_first, padding_value, total_length):
+        if ENGINE is not None and (isinstance(data, SymTensor) or isinstance(batch_sizes, SymTensor)):
+            return ENGINE.op__pad_packed_sequence(None, None, ENGINE.wrap(data), ENGINE.wrap(batch_sizes), batch_first, padding_value, total_length)
+        return self._real._pad_packed_sequence(data, batch_sizes, batch_first, padding_value, total_length)
+
+    def _pack_padded_sequence(self, inp, lengths, batch_first):
+        if ENGINE is not None and (isinstance(inp, SymTensor) or isinstance(lengths, SymTensor)):
+            return ENGINE.op__pack_padded_sequence(None, None, ENGINE.wrap(inp), ENGINE.wrap(lengths), batch_first)
+        return self._real._pack_padded_sequence(inp, lengths, batch_first)
+
+
+def _install_vf_shim():
+    import torch.nn.utils.rnn as rnn
+    if not isinstance(rnn._VF, _VFShim):
+        rnn._VF = _VFShim(rnn._VF)
+
+
 def explore(harness, stats=None, max_paths=20000, time_limit=None, engine_cls=Engine):
     """generator: run harness(engine) on every feasible path, yielding (decisions, engine, out).
 
     The cell HEAP of a path is only valid until the generator is advanced."""
     global ENGINE
     work = [[]]
+    _install_vf_shim()
     if stats is None:
         stats = {}
     stats.update(dict(paths=0, aborted=0, fork_queries=0, fork_solver_s=0.0, opcount={}))
@@ -1659,3 +1687,47 @@ def _op_nll_loss_forward(self, func, ov, x, target, weight, reduction, ignore_in
 
 
 Engine.op_nll_loss_forward = _op_nll_loss_forward
+
+
+def _op_exp(self, func, ov, a):
+    """exp as an uninterpreted positive function; exp(-inf) = 0, exp(+inf) = +inf"""
+    F = z3.Function("EXP", z3.RealSort(), z3.RealSort())
+    out = []
+    for v in a.vals():
+        if not is_sym(v):
+            out.append(math.exp(v) if not (isinstance(v, float) and math.isnan(v)) else v)
+            continue
+        x = xr(v)
+        t = F(to_real_expr(x.val) if is_sym(x.val) else z3.RealVal(fractions_of(x.val)))
+        self.pc.append(t > 0)
+        out.append(xr_norm(XR(x.pinf, s_ite(x.ninf, 0.0, t), False, x.nan)))
+    return SymTensor.from_vals(out, a.shape, a.dtype if isfloat_dtype(a.dtype) else torch.float32)
+
+
+def fractions_of(v):
+    import fractions
+    return fractions.Fraction(v)
+
+
+Engine.op_exp = _op_exp
+
+
+def _op_pack_padded_sequence(self, func, ov, inp, lengths, batch_first):
+    with no_mode():
+        if isinstance(lengths, SymTensor) and not lengths.concrete():
+            raise Unsupported("pack_padded_sequence with symbolic lengths")
+        data, bs = aten._pack_padded_sequence(inp.idx, lengths.to_real() if isinstance(lengths, SymTensor) else lengths, batch_first)
+        vals = [HEAP[i] for i in data.reshape(-1).tolist()]
+    return SymTensor.from_vals(vals, data.shape, inp.dtype), SymTensor.from_real(bs)
+
+
+def _op_pad_packed_sequence(self, func, ov, data, batch_sizes, batch_first, padding_value, total_length):
+    with no_mode():
+        out, lens = aten._pad_packed_sequence(data.idx + 1, batch_sizes.to_real(), batch_first, 0, total_length)
+        flat = out.reshape(-1).tolist()
+    fill = s_cast(padding_value, data.dtype)
+    return SymTensor.from_vals([HEAP[i - 1] if i else fill for i in flat], out.shape, data.dtype), SymTensor.from_real(lens)
+
+
+Engine.op__pack_padded_sequence = _op_pack_padded_sequence
+Engine.op__pad_packed_sequence = _op_pad_packed_sequence
